@@ -575,7 +575,7 @@ func (s *Store) Update(_ context.Context, obj client.Object, opts ...client.Upda
 		s.log(c)
 		return kerrors.NewConflict(gr(group, kind), c.Name, errString("the object has been modified"))
 	}
-	if s.rejected(group, kind, c.NS, c.Name) {
+	if s.rejected(group, kind, c.NS, c.Name) || s.rejectedObj(obj) {
 		c.Err = true
 		s.log(c)
 		return kerrors.NewInvalid(schema.GroupKind{Group: group, Kind: kind}, c.Name, nil)
@@ -898,7 +898,7 @@ func (s *Store) Patch(_ context.Context, obj client.Object, p client.Patch, opts
 			s.log(c)
 			return kerrors.NewNotFound(gr(group, kind), c.Name)
 		}
-		if s.rejected(group, kind, c.NS, c.Name) {
+		if s.rejected(group, kind, c.NS, c.Name) || s.rejectedObj(obj) {
 			c.Err = true
 			s.log(c)
 			return kerrors.NewInvalid(schema.GroupKind{Group: group, Kind: kind}, c.Name, nil)
